@@ -164,3 +164,34 @@ CLAIMS["C12"] = {
 }
 
 NOT_CLAIMED = {}
+
+
+# ---- wave 4 additions to the level texts (appended so that the per-property entries above stay as written)
+def _add(k, s):
+    CLAIMS[k]["text"] = CLAIMS[k]["text"].rstrip() + " " + s
+
+
+_add("C02", "Wave 3: the native skip/validate stack machine is also given as a fuel-free transition system with the invariant "
+            "fsm_config_iff (a configuration empties its stack iff the rest of the input is a text of the continuation its stack denotes), "
+            "the shared recursive-descent parser is proved to accept exactly the Strict grammar, and the generic (interface{}) decoder's "
+            "state x token table is re-read from generic_regabi_amd64.go on every run and proved to accept exactly the token grammar; "
+            "whitespace-rich documents run in history pairs under both decoder configurations.")
+_add("C03", "Wave 4: Model/EncStd.lean is a second, separately written byte-level specification transcribed from encoding/json's own rules; "
+            "it must equal the REAL encoding/json byte for byte on every case (a difference is a tie failure of the specification), and "
+            "encode_eq_std_partial relates it to the sonic encoder model on a stated sub-universe, with kernel-checked witnesses for each "
+            "recorded deviation.")
+_add("C11", "Wave 5: Model/BindDom.lean is a structurally different two-phase model of the alternative decoder (eager DOM, then binding); "
+            "optdec_eq_bind is proved at full strength for the repaired decoder, the recorded deviations of the decoder as it is are "
+            "kernel-checked witnesses of the switchable Quirks, and each optdec worker is held against ITS model while the JIT worker is held "
+            "against Bind.")
+_add("C10", "Wave 3: every raw allocation site (mallocgc / Mallocgc in Go and call_go(_F_mallocgc) in the assemblers) and every "
+            "NoEscape(&local) site is a regenerated fact; theorems require un-zeroed allocations to be exactly the listed pointer-free ones and "
+            "NoEscape of a local only under the Indirect() guard; a null-arena stream (dirtied heap, forced GC, alternative decoder's fast-map "
+            "arena) and a stack-move stream (interpreter encoder, recursion through pointer-shaped wrappers) exercise the same.")
+_add("C13", "Wave 4: the two dispatch tables of internal/native/dispatch_amd64.go are re-read on every run and dispatch_tables_wired "
+            "decides that every slot is filled from its own package with the symbol of its own name and that both tables have the same slots; "
+            "per-slot case counts are in the evidence.")
+_add("C18", "Wave 3: a large-document stream (documents scaled across the internal buffer regimes, both decoder configurations, stream "
+            "decoder = Unmarshal) checks that an option's effect does not depend on document size.")
+_add("C05", "Wave 4: the Go-side scanners that use unsafe loads (ast parser/loader entry points, utf8) are placed flush against a guard "
+            "page both behind AND in front of the input.")
